@@ -298,3 +298,14 @@ def path_conditions(func_node: ast.AST, target: ast.AST, limit: int = 512) -> li
     except Found:
         pass
     return [set(c) for c in dict.fromkeys(results)]
+
+
+def eq_other(test: ast.AST, is_subject) -> Optional[ast.AST]:
+    """For a single `==` / `is` comparison one of whose operands satisfies `is_subject`, the OTHER operand (either order)."""
+    if isinstance(test, ast.Compare) and len(test.ops) == 1 and isinstance(test.ops[0], (ast.Eq, ast.Is)):
+        a, b = test.left, test.comparators[0]
+        if is_subject(a):
+            return b
+        if is_subject(b):
+            return a
+    return None
